@@ -44,6 +44,7 @@ var pcBase = time.Date(2024, 1, 1, 0, 0, 0, 0, time.UTC)
 func (v *recVer) String() string { return fmt.Sprintf("%s.v%d@%d", v.prov, v.ver, v.t) }
 
 type srcCall struct {
+	at       int64 // step at which the source was asked
 	src      *simSource
 	all      bool
 	pid      string
@@ -100,7 +101,7 @@ var srcErrorNames = []string{"plain", "deadline", "api-503", "api-404", "cancele
 func (s *simSource) String() string { return s.name }
 
 func (s *simSource) FetchAll(ctx context.Context) ([]*model.ProviderInfo, error) {
-	call := &srcCall{src: s, all: true}
+	call := &srcCall{src: s, all: true, at: s.d.r.Step()}
 	call.op, _ = ctx.Value(pcOpKey{}).(*pcOp)
 	s.nAll++
 	v := s.d.r.ParkWith(&simkit.Parked{Site: "src.fetchall", Who: s.name, Data: call})
@@ -619,7 +620,7 @@ type pcDriver struct {
 	net           *simkit.Net // HTTP mode
 	stalledOpen   int
 	httpOpen      int     // HTTP source calls in progress (also those of the automatic refresh)
-	fullRefreshAt []int64 // steps at which a complete (uncancelled) refresh published
+	fullRefreshAt []int64 // for each complete (uncancelled) refresh that published: the step at which it asked its first source
 }
 
 func (d *pcDriver) newVer(prov string, t int) *recVer {
@@ -698,7 +699,13 @@ func (d *pcDriver) publishAction(p *simkit.Parked) *simkit.Action {
 				d.r.Logf("~model", "cancelled refresh publishes partial results")
 			} else {
 				d.m.applyRefresh(calls, d.lastSrcRel)
-				d.fullRefreshAt = append(d.fullRefreshAt, d.r.Step())
+				first := d.r.Step()
+				for _, c := range calls {
+					if c.at < first {
+						first = c.at
+					}
+				}
+				d.fullRefreshAt = append(d.fullRefreshAt, first)
 				d.r.Logf("~model", "refresh publishes: visible=%v", d.m.visible())
 			}
 			if site == "2" {
@@ -1042,8 +1049,12 @@ func (d *pcDriver) verify(op *pcOp) {
 		} else {
 			// The call found an update in progress and waited for it instead
 			// of refreshing itself. That is a refresh "completed without
-			// error" only if a complete refresh published while it waited; a
-			// lookup miss or a refresh that was cancelled part-way is not.
+			// error" only if a complete refresh that asked its sources
+			// after this call was made published while it waited: what the
+			// sources reported when this call was made must be visible when
+			// it returns. A lookup miss, a refresh that was cancelled
+			// part-way, or a refresh that had read its sources before this
+			// call is not.
 			r.Probe("refresh-waited")
 			covered := false
 			for _, st := range d.fullRefreshAt {
@@ -1052,7 +1063,7 @@ func (d *pcDriver) verify(op *pcOp) {
 				}
 			}
 			if !covered {
-				r.Violate(o+".refresh", "Refresh by %s returned nil without consulting any source, and no complete refresh published while it waited (the update in progress was a lookup miss or a refresh that was cancelled) [started at step %d, complete refreshes published at %v]", op.task, op.startAt, d.fullRefreshAt)
+				r.Violate(o+".refresh", "Refresh by %s returned nil without consulting any source, and no complete refresh that asked its sources after this call began published while it waited (the update in progress was a lookup miss, a cancelled refresh, or a refresh that had read its sources earlier) [called at step %d; complete refreshes asked their first source at %v]", op.task, op.startAt, d.fullRefreshAt)
 			}
 		}
 	}
